@@ -1,6 +1,7 @@
 import SlotVerif.Model.Node
 import SlotVerif.Proofs.ListAux
 import SlotVerif.Proofs.Shape
+import SlotVerif.Proofs.ShapeIdem
 /-!
 # C16 — Node shapes are canonical modulo renaming; derived Language impls are coherent
 
@@ -9,8 +10,8 @@ Model: `Model/Node.lean` (generic over the language signature, so the theorems c
 shape law `weakShape_rename` — **the shape of a node does not change when all its slot occurrences
 (free and bound alike) are renamed injectively**, for every node of every language, by a simulation
 argument over the weak-shape state (`Proofs/Shape.lean`).  So free renaming and alpha-renaming of
-binders both leave the shape — the hashcons key — unchanged.  `weakShape_idem`, `weakShape_apply`
-and the syntax round-trip are listed as pending in the evidence and are covered by the
+binders both leave the shape — the hashcons key — unchanged.  `weakShape_idem`: **the shape of a shape is the shape itself**
+(`Proofs/ShapeIdem.lean`).  `weakShape_apply` and the syntax round-trip are listed as pending in the evidence and are covered by the
 correspondence check and the harness-side predicates only.
 -/
 namespace SV.Node.C16
@@ -182,5 +183,22 @@ def exNode : Node := { v := 0, fields := [.bind 8 (.app { id := 3, m := [(0, 8),
 example : (Node.weakShape (Node.rename (fun x => x + 100) exNode)).1 = (Node.weakShape exNode).1 := by decide
 example : Shape.InjOn (fun x => x + 100) (Node.allOcc exNode) := by
   intro a _ b _ h; simpa using h
+
+
+/-- **The shape of a shape is itself** (`sh.weak_shape().0 == sh` for every `sh = n.weak_shape().0`), for all
+nodes of all languages, including binders that shadow an enclosing slot name. -/
+theorem weakShape_idem (n : Node) : (Node.weakShape (Node.weakShape n).1).1 = (Node.weakShape n).1 := by
+  have h0 : ShapeIdem.Inv (([], 0) : Field.WS) ([], 0) :=
+    ⟨rfl, SlotMap.wf_nil, SlotMap.wf_nil, fun _ _ h => by simp [SlotMap.get] at h,
+     fun _ _ h => by simp [SlotMap.get] at h, fun _ _ h => by simp [SlotMap.get] at h⟩
+  obtain ⟨h1, _⟩ := ShapeIdem.step_fields n.fields h0
+  simp only [Node.weakShape]
+  rw [h1]
+
+/-- non-vacuity (kernel-checked): a binder shadowing a free slot of the same name -/
+def exShadow : Node := { v := 0, fields := [.slot 8, .bind 8 (.app { id := 3, m := [(0, 8), (4, 12)] }), .slot 8] }
+example : (Node.weakShape exShadow).1 =
+    { v := 0, fields := [.slot 0, .bind 4 (.app { id := 3, m := [(0, 4), (4, 8)] }), .slot 0] } := by decide
+example : (Node.weakShape (Node.weakShape exShadow).1).1 = (Node.weakShape exShadow).1 := by decide
 
 end SV.Node.C16
